@@ -3676,6 +3676,8 @@ class Score(object):
         self.lyricist = lyricist
         self.copyright = copyright
 
+        # position used by __next__
+        self.iter_idx = 0
         # Flat list of parts
         self.parts = list(iter_parts(partlist))
         # List of Parts and PartGroups
@@ -3700,8 +3702,9 @@ class Score(object):
         self.parts[index] = part
 
     def __iter__(self) -> Iterator[Part]:
-        self.iter_idx = 0
-        return self
+        # an independent iterator for every loop: nested or interleaved
+        # iterations over the same score must not share their position
+        return iter(self.parts)
 
     def __next__(self) -> Part:
         if self.iter_idx == len(self.parts):
